@@ -22,6 +22,11 @@ Search (property oracle, independent of the model; works on the RAW snippet text
   * user RAW snippets print their body, every line break included.  Known finding
     c06:raw-linebreak-before-field-or-end: a line break immediately before a tabstop / at the end of the body is lost
     (exactly that class, and only when the output is the body without those breaks; anything else is a violation).
+  * AS LISTED (as_listed): wherever the oracle's own tokenizer can read the snippet, the line of a key is compared to the
+    letter (built-in and user tables): a tabstop written close to the token before it stays close (`${1:inset }${2:hoff}`);
+  * new user keys with upper-case letters (cased_key), property and raw bodies, and the user's keywords typed after them;
+  * user tables supplied through the GLOBAL config (type section, syntax section, call config, every combination; see
+    layered_stream): oracle only, the model is compared on the merged table for a few configurations.
 Tie: every case also goes through the Coq model of the whole pipeline (output string compared; for the value stream the
 callback events -- text and field invocations with offset, line, column -- of run/StyleEvents.v)."""
 import glob
@@ -206,6 +211,34 @@ def key_oracle(table, key, cfg, r):
         return 'no value listed: expected a tabstop, got %r' % (val,)
     if squash(plain(val)) != squash(plain(alts[0])):
         return 'expected the first listed value %r, got %r' % (alts[0], val)
+    return as_listed(table[key], key, cfg, out)
+
+
+GRADIENT_KEY = 'lg'
+OVERRIDE_GRADIENT_KEY = False
+"""OFF: a user snippet under the key `lg` does NOT replace the built-in one -- the gradient shortcut is resolved before the
+table is consulted (expand('lg', {'type': 'stylesheet', 'snippets': {'lg': 'foo-bar:alpha|beta'}}) gives
+'background-image: linear-gradient();').  rand_value_table has always left `lg` out; rand_user_table drew its overriding
+keys from the whole table and so alarmed on the clean tree whenever the draw hit `lg` (about 1 table in 100)."""
+
+
+def as_listed(source, key, cfg, out):
+    """`<its property>: <its first listed value>` to the letter, for every snippet the oracle's own tokenizer
+    (cssvalues_gen.read_tokens, the snippet's SOURCE STRING only) can read: tokens separated by single blanks, call
+    arguments and comma-separated values by ", ", a tabstop written close to the token before it (`#${1:fff}`,
+    `${1:inset }${2:hoff}`) stays close, the first value wrapped in tabstops iff >= 2 alternatives and no tabstop of its
+    own.  Snippets it cannot read (several comma-separated values to be wrapped) keep the white-space-blind comparison
+    above; so does `lg`: the documented gradient shortcut is resolved apart from the table (its tabstop is numbered 0,
+    the table's text says 1 -- a tabstop either way)."""
+    if key == GRADIENT_KEY:
+        return None
+    between, after = BETWEEN_AFTER[cfg.syntax]
+    try:
+        want = vg.expected_line(source, between, after, cfg.tabstop, cfg.options.get('stylesheet.shortHex', True))
+    except vg.Unreadable:
+        return None
+    if out != want:
+        return 'snippet %r: expected the line %r as listed, got %r' % (source, want, out)
     return None
 
 
@@ -243,26 +276,62 @@ def keyword_oracle(prop, kw, is_fn, listed, cfg, r):
 
 
 # ---------------------------------------------------------------- user tables
+USER_PROPS = ['margin', 'foo-bar', 'x-y-z', 'color', 'grid-area', 'my-prop']
+USER_VALUES = ['', 'auto', 'a|b|c', '${1:x} ${2:y}', 'none|${1:some}', 'url(${0})', 'f(${1:a}, ${2:b})|g()', '10px', '#${1:fff}',
+               '"q r"', 'a b c|d', 'inherit|initial|unset', 'Arial|Verdana|sansSerif', 'currentColor|red', '${1:a }${2:b} ${3:c}|none',
+               'alpha|beta|gamma']
+USER_BODIES = ['x ${1} y ${2:z}', '@rule ${1:name} {\n\t${0}\n}', '/* ${0} */', 'foo(${1:a}) bar', 'plain text', '${1:only}',
+               'form\x0cfeed ${1}', 'ls\u2028ps\u2029 ${1:x}\x0b\x85y', 'cr\rlf\r\nend']
+KEY_WORDS = ['zquux', 'mycenterawesome', 'zq', 'qv', 'xfoo', 'zedprop', 'bdx', 'posq', 'mmq', 'kq', 'zzr', 'ab', 'q']
+
+
+def rand_snip(rng):
+    if rng.random() < 0.7:
+        p = rng.choice(USER_PROPS)
+        v = rng.choice(USER_VALUES)
+        return p + (':' + v if v else '')
+    return rng.choice(USER_BODIES)
+
+
+def cased_key(rng, word=None):
+    """a NEW key written with upper-case letters: camelCase, Capitalised, UPPER, alternating, one letter raised, with an
+    underscore, with the `@` / `$` a name may begin with.  Only what the abbreviation grammar reads as ONE name: ASCII
+    letters and `_` (a digit, a dash or any other character ends the name; a non-ASCII letter is a scanner error)."""
+    w = word or rng.choice(KEY_WORDS + [''.join(rng.choice('abcdmpxzqvkw') for _ in range(rng.randint(2, 7)))])
+    style = rng.randrange(7)
+    if style == 0:
+        i = rng.randrange(len(w))
+        w = w[:i] + w[i].upper() + w[i + 1:]                     # one letter raised (zQuux, Zquux, zquuX)
+    elif style == 1:
+        w = w.upper()
+    elif style == 2:
+        w = w[0].upper() + w[1:]
+    elif style == 3:
+        w = ''.join(c.upper() if i % 2 else c for i, c in enumerate(w))
+    elif style == 4:
+        step = rng.randint(2, 4)
+        w = ''.join(c.upper() if i and i % step == 0 else c for i, c in enumerate(w))       # camelCase (myCenterAwesome)
+    elif style == 5:
+        i = rng.randrange(len(w) + 1)
+        w = w[:i] + '_' + w[i:].capitalize()
+    else:
+        w = ''.join(c.upper() if rng.random() < 0.5 else c for c in w)
+    if rng.random() < 0.12:
+        w = rng.choice('@$') + w
+    return w
+
+
 def rand_user_table(rng, base):
-    """(table, [(key, kind)]) : overriding keys, new keys, near-collisions of repeated letters"""
+    """(table, [(key, kind)]) : overriding keys, new keys, near-collisions of repeated letters, new keys with upper-case
+    letters"""
     t = {}
-    props = ['margin', 'foo-bar', 'x-y-z', 'color', 'grid-area', 'my-prop']
-    values = ['', 'auto', 'a|b|c', '${1:x} ${2:y}', 'none|${1:some}', 'url(${0})', 'f(${1:a}, ${2:b})|g()', '10px', '#${1:fff}',
-              '"q r"', 'a b c|d', 'inherit|initial|unset']
-    bodies = ['x ${1} y ${2:z}', '@rule ${1:name} {\n\t${0}\n}', '/* ${0} */', 'foo(${1:a}) bar', 'plain text', '${1:only}',
-              'form\x0cfeed ${1}', 'ls\u2028ps\u2029 ${1:x}\x0b\x85y', 'cr\rlf\r\nend']
     keys = list(base)
-
-    def rand_snip():
-        if rng.random() < 0.7:
-            p = rng.choice(props)
-            v = rng.choice(values)
-            return p + (':' + v if v else '')
-        return rng.choice(bodies)
-
     lows = {k.lower() for k in keys}
     for _ in range(rng.randint(1, 3)):        # overrides
-        t[rng.choice(keys)] = rand_snip()
+        k = rng.choice(keys)
+        if k == GRADIENT_KEY and not OVERRIDE_GRADIENT_KEY:
+            continue
+        t[k] = rand_snip(rng)
     for _ in range(rng.randint(2, 6)):        # new keys
         k = rng.random()
         if k < 0.4:
@@ -280,8 +349,20 @@ def rand_user_table(rng, base):
         if nk.lower() in lows and nk not in base:
             continue
         lows.add(nk.lower())
-        t[nk] = rand_snip()
+        t[nk] = rand_snip(rng)
+    for _ in range(rng.randint(2, 4)):        # new keys with upper-case letters; property bodies more often than raw ones
+        nk = cased_key(rng)
+        if nk.lower() in lows:
+            continue          # the same name in another letter case: names not distinct (matching ignores case)
+        lows.add(nk.lower())
+        t[nk] = rand_snip(rng)
     return t
+
+
+def key_shape(k):
+    core = k.lstrip('@$')
+    return ('sigil+' if core != k else '') + ('lower' if core == core.lower() else 'UPPER' if core == core.upper() else 'Mixed') + (
+        '+underscore' if '_' in core else '')
 
 
 def corpus(ctx):
@@ -393,6 +474,17 @@ def gen(ctx):
             cfg = Cfg(syntax=syn, snippets=user, context=scope, tabstop=True)
             for k in user:
                 cases.append((cfg, k, ('key', t, k), 'user-key', None))
+                ctx.cover('c06:user-key:' + key_shape(k))
+                kind = classify(user[k])
+                if scope is not None or kind[0] != 'prop':
+                    continue
+                # the dash-free keywords the user's snippet lists (alternatives written without tabstops), typed in full
+                # after the user's key, in the listed / UPPER / alternating case
+                for kw, is_fn, listed in listed_keywords([a for a in kind[2] if '$' not in a]):
+                    if re.search(r'\d', kw):
+                        continue
+                    for var in case_variants(kw)[:1] + case_variants(kw)[2:4]:
+                        cases.append((cfg, k + rng.choice(':-') + var, ('kw', kind[1], kw, is_fn, listed), 'user-keyword', None))
             for k in rng.sample(sorted(tables[syn]), 12 if quick else 40):
                 if k.lower() in {u.lower() for u in user if u != k}:
                     continue          # the user added the same name in another letter case: names not distinct
@@ -408,11 +500,28 @@ def apply_check(check, cfg, r):
     return keyword_oracle(check[1], check[2], check[3], check[4], cfg, r)
 
 
+def shared_cache_run(s, cfg, s1):
+    """expand(s) under cfg through a cache dict that a call under scope s1 has used before"""
+    from emmet import expand
+    cache = {}
+    first = Cfg(syntax='css', context=s1, tabstop=cfg.tabstop).impl_config()
+    first['cache'] = cache
+    second = cfg.impl_config()
+    second['cache'] = cache
+    try:
+        expand('m10' if s1 != '@@section' else '@m', first)
+    except Exception:
+        pass
+    try:
+        return ('ok', expand(s, second))
+    except Exception as e:
+        return su.classify_exc(e, len(s))
+
+
 def shared_cache_scopes(ctx, cases):
     """`A context scope restricts matching to the permitted kind of snippet` also when one `cache` dict is shared by
     configurations that differ in their scope: first a call under scope s1 fills the cache, then the case's own
     configuration (scope s2) uses it; the case's check must still hold."""
-    from emmet import expand
     sample = [(cfg, s, check, fkey) for cfg, s, check, tag, fkey in cases
               if cfg.syntax == 'css' and not cfg.snippets and not cfg.options and s in SHARED_CACHE_KEYS and check and check[0] == 'key']
     n = 0
@@ -420,19 +529,7 @@ def shared_cache_scopes(ctx, cases):
         for s1 in [None] + list(SCOPES):
             if s1 == cfg.context:
                 continue
-            cache = {}
-            first = Cfg(syntax='css', context=s1, tabstop=cfg.tabstop).impl_config()
-            first['cache'] = cache
-            second = cfg.impl_config()
-            second['cache'] = cache
-            try:
-                expand('m10' if s1 != '@@section' else '@m', first)
-            except Exception:
-                pass
-            try:
-                r = ('ok', expand(s, second))
-            except Exception as e:
-                r = su.classify_exc(e, len(s))
+            r = shared_cache_run(s, cfg, s1)
             n += 1
             ctx.count_eval()
             ctx.cover('c06:shared-cache-across-scopes')
@@ -464,9 +561,27 @@ def run(ctx):
         'keywords / numbers with units / #colours / strings / calls with 0-3 arguments nested once, with and without explicit fields, '
         'irregular blanks) and RAW bodies with line breaks around tabstops, 40 (quick) / 400 (thorough) tables x {tabstop, identity} '
         'callback, syntaxes css/scss/sass/less/stylus in rotation, scopes none/@@global/@@property, shortHex off in 15%%: exact line and '
-        'exact output.field invocations expected from the SOURCE STRING by the oracle\'s own tokenizer.  Oracle: raw snippet text vs '
-        'output (see module docstring).  Tie: output string of the Coq model; callback events for the value stream.  Non-trivial: every '
-        'case; distinct by (configuration, abbreviation).')
+        'exact output.field invocations expected from the SOURCE STRING by the oracle\'s own tokenizer.  '
+        'AS LISTED: every key whose snippet that tokenizer can read (built-in and user tables alike; all but `lg` and lists of '
+        'comma-separated values that are to be wrapped) must print `<property><between><first listed value><after>` to the letter -- '
+        'single blanks between tokens, ", " between arguments / comma-separated values, a tabstop written close to the token before '
+        'it stays close.  TABSTOPS CLOSE TO THE TOKEN BEFORE THEM: value snippets (15%% of the value tables\' entries) of 1-4 groups '
+        '<keyword | number | #colour | string | tabstop> followed by 0-3 tabstops without a blank, also inside call arguments, '
+        'placeholders with leading/trailing blanks (after the `)` of a call: generator class off, '
+        'cssvalues_gen.FIELD_GLUED_AFTER_CALL).  KEYS WITH UPPER-CASE LETTERS: 2-4 new keys per random user table and 20%% of the '
+        'value tables\' keys are written camelCase / Capitalised / UPPER / alternating / one letter raised / with `_` / with a leading '
+        '`@` or `$` (only ASCII letters and `_` make ONE name in the abbreviation grammar), with property and raw bodies; for the '
+        'unscoped configuration of every random user table every dash-free keyword of the user\'s property snippets is typed after '
+        'the user\'s key (`:` or `-`) in listed / UPPER / alternating case.  GLOBAL CONFIG LAYERS: user tables supplied through '
+        'expand(abbr, config, global_config): all 7 non-empty subsets of {global[stylesheet], global[<syntax>], call config} x 6 '
+        'syntaxes (x 6 rounds thorough), 1-2 overriding and 1-3 new keys per layer, a key of a less specific layer redefined by a '
+        'more specific one in 60%%, sections of other syntaxes / markup / html / pug with the same kind of tables as noise, sections '
+        'that do not mention snippets; every user key, every built-in key only the noise overrides and 4 built-in keys are typed; '
+        'the expected table is the built-in one updated in the documented order type section < syntax section < call.  The Coq model '
+        'has no global layers: these cases are judged by the oracle, and for 4 (quick) / 21 (thorough) multi-layer configurations '
+        'the model is run on the merged table as its user table and compared.  '
+        'Oracle: raw snippet text vs output (see module docstring).  Tie: output string of the Coq model; callback events for the '
+        'value stream.  Non-trivial: every case; distinct by (configuration, abbreviation).')
     cases = gen(ctx)
     pairs = [(c, s) for c, s, _, _, _ in cases]
     impl = su.impl_expand_many(pairs)
@@ -488,6 +603,7 @@ def run(ctx):
                                       'impl': repr(r2)[:300], 'why': bad})
     shared_cache_scopes(ctx, cases)
     value_stream(ctx, ok, {syn: live_table(syn) for syn in VALUE_SYNTAXES})
+    layered_stream(ctx, ok, {syn: live_table(syn) for syn in su.SYNTAXES})
     for (cfg, s, check, tag, fkey), r in list(zip(cases, impl))[-5:]:
         ctx.sample({'input': s, 'config': cfg.to_json(), 'impl': repr(r)[:160]})
     runner = su.ImplRunner()
@@ -530,16 +646,31 @@ def rand_value_table(rng, base, size=None):
             b = rng.choice(OVERRIDE_KEYS)
             i = rng.randrange(len(b))
             k = b[:i] + b[i] * rng.randint(1, 2) + b[i:]
-        else:
+        elif r < 0.8:
             k = ''.join(rng.choice('abcdmpxzqv') for _ in range(rng.randint(2, 6)))
+        else:
+            k = cased_key(rng)
         if k.lower() in lows or k == 'lg' or (k.lower() in base_low and k not in base):
             continue
         lows.add(k.lower())
-        if rng.random() < 0.15:
+        r = rng.random()
+        if r < 0.15:
             t[k] = rng.choice(vg.RAW_BODIES)
+        elif r < 0.3:
+            t[k] = vg.gen_glued_snippet(rng)          # tabstops written close to the token before them
         else:
             t[k] = vg.gen_snippet(rng, canonical=rng.random() < 0.85)[0]
     return t
+
+
+def close_pairs(toks):
+    """kinds of the tokens that have a tabstop written close after them (arguments of calls included)"""
+    out = [a[0] for a, b in zip(toks, toks[1:]) if b[0] == 'field' and b[3]]
+    for t in toks:
+        if t[0] == 'call':
+            for a in t[2]:
+                out += close_pairs(a)
+    return out
 
 
 def value_cases(ctx, tables):
@@ -591,9 +722,12 @@ def value_stream(ctx, ok, tables):
         if kind == 'prop':
             try:
                 alts = vg.split_alts(vg.RE_SNIPPET.match(src).group(2))
-                toks = vg.read_tokens(alts[0], 0, '')[0] if alts[0].strip() else []
+                toks = [t for part in vg.read_value_list(alts[0]) for t in part] if alts[0].strip() else []
                 ctx.cover('c06:value:alts=%d' % min(len(alts), 4))
                 ctx.cover('c06:value:' + vg.shape(toks) + (',fields' if vg.toks_have_field(toks) else ''))
+                for a in close_pairs(toks):
+                    ctx.cover('c06:value:tabstop-close-after-' + a)
+                ctx.cover('c06:user-key:' + key_shape(k))
             except Exception:
                 ctx.cover('c06:value:unreadable')
         bad = value_verdict(cfg, k, src, kind, r)
@@ -635,6 +769,171 @@ def value_stream(ctx, ok, tables):
     ctx.cov['correspondence']['css_value_snippets_events_model'] = {'cases': len(chosen), 'configurations': len(seen), 'disagreements': dis}
 
 
+# ---------------------------------------------------------------- user snippets given through the GLOBAL config
+# "A user-defined snippet replaces a built-in one under the same key, is reachable under a new key" -- wherever the user
+# table is supplied.  expand(abbr, config, global_config) / Config(config, global_config) take user tables from three
+# places: global_config[<type>] (here 'stylesheet'), global_config[<syntax>] and the call's own config.  The documented
+# order (README "global config", the statement of C20): type section, then syntax section, then the call's config; a more
+# specific layer replaces a key of a less specific one, keys it does not mention stay.  Sections of OTHER syntaxes and of
+# the markup type define nothing for this call.
+LAYERS = ('type', 'syntax', 'call')
+LAYER_SUBSETS = [('type',), ('syntax',), ('call',), ('type', 'syntax'), ('type', 'call'), ('syntax', 'call'), ('type', 'syntax', 'call')]
+N_LAYER_MODEL = {'quick': 4, 'thorough': 21}
+
+
+def rand_layers(rng, syn, base, subset):
+    """-> (layers {'type'|'syntax'|'call': table}, noise {section name: table}, keys that only the noise overrides)"""
+    lows = {k.lower() for k in base}
+    used = set()
+
+    def new_key():
+        for _ in range(50):
+            r = rng.random()
+            if r < 0.5:
+                k = ''.join(rng.choice('abcdmpxzqvkw') for _ in range(rng.randint(2, 6)))
+            elif r < 0.75:
+                k = rng.choice(KEY_WORDS)
+            else:
+                k = cased_key(rng)
+            if k.lower() not in lows:
+                lows.add(k.lower())
+                return k
+        return None
+
+    def table(avoid_overrides):
+        t = {}
+        for _ in range(rng.randint(1, 2)):
+            k = rng.choice([k for k in OVERRIDE_KEYS if k in base])
+            if k not in avoid_overrides:
+                t[k] = rand_snip(rng)
+        for _ in range(rng.randint(1, 3)):
+            k = new_key()
+            if k:
+                t[k] = rand_snip(rng)
+        return t
+
+    layers = {}
+    for name in subset:
+        t = table(())
+        # a key of a less specific layer defined again, with another text
+        earlier = [k for n in subset[:subset.index(name)] for k in layers[n]]
+        if earlier and rng.random() < 0.6:
+            k = rng.choice(earlier)
+            body = rand_snip(rng)
+            if all(layers[n].get(k) != body for n in layers):
+                t[k] = body
+        layers[name] = t
+        used.update(t)
+    noise = {}
+    others = [x for x in su.SYNTAXES if x != syn]
+    for sec in rng.sample(others, rng.randint(1, 2)) + rng.sample(['markup', 'html', 'pug'], rng.randint(0, 2)):
+        noise[sec] = table(used)
+    noise_only = sorted({k for t in noise.values() for k in t if k in base and k not in used})
+    return layers, noise, noise_only
+
+
+def layered_global(rng, syn, layers, noise):
+    g = {}
+    for sec, t in noise.items():
+        g[sec] = {'snippets': dict(t)}
+    for name, sec in (('type', 'stylesheet'), ('syntax', syn)):
+        if name in layers:
+            g[sec] = {'snippets': dict(layers[name])}
+            if rng.random() < 0.3:
+                g[sec]['options'] = {}
+        elif rng.random() < 0.5:
+            g[sec] = rng.choice([{}, {'options': {}}, {'variables': {'zz': 'y'}}])          # a section that does not mention snippets
+    return g
+
+
+def layered_effective(base, layers):
+    eff = dict(base)
+    merged = {}
+    for name in LAYERS:
+        eff.update(layers.get(name, {}))
+        merged.update(layers.get(name, {}))
+    return eff, merged
+
+
+def impl_layered(abbr, cfg, glob, call_snippets, cache=None):
+    from emmet import expand
+    import copy
+    conf = Cfg(cfg.syntax, cfg.options, call_snippets, cfg.context, cfg.tabstop).impl_config()
+    if cache is not None:
+        conf['cache'] = cache
+    try:
+        return ('ok', expand(abbr, conf, copy.deepcopy(glob)))
+    except Exception as e:
+        return su.classify_exc(e, len(abbr))
+
+
+def layered_stream(ctx, ok, tables):
+    rng = ctx.rng
+    quick = ctx.tier == 'quick'
+    rounds = 1 if quick else 6
+    cases = []          # (cfg of the merged table, abbr, check, global config, call snippets, config number)
+    ci = 0
+    for rnd in range(rounds):
+        for si, syn in enumerate(su.SYNTAXES):
+            base = tables[syn]
+            for subset in LAYER_SUBSETS:
+                layers, noise, noise_only = rand_layers(rng, syn, base, subset)
+                glob = layered_global(rng, syn, layers, noise)
+                eff, merged = layered_effective(base, layers)
+                scope = None if rng.random() < 0.7 else rng.choice(SCOPES)
+                cfg = Cfg(syntax=syn, snippets=merged, context=scope, tabstop=True)
+                keys = list(merged) + noise_only + rng.sample(sorted(base), 4)
+                for k in dict.fromkeys(keys):
+                    cases.append((cfg, k, ('key', eff, k), glob, layers.get('call', {}), ci, '+'.join(subset)))
+                ci += 1
+    caches = {}
+    results = []
+    for cfg, k, check, glob, call, n, shape in cases:
+        r = impl_layered(k, cfg, glob, call, caches.setdefault(n, {}))
+        results.append(r)
+        ctx.count_eval()
+        ctx.nontrivial(('layers', n, cfg.key(), k))
+        ctx.cover('c06:global-config-layers:' + shape)
+        ctx.cover('c06:syntax:' + cfg.syntax)
+        bad = apply_check(check, cfg, r)
+        if bad:
+            r2 = impl_layered(k, cfg, glob, call, None)
+            bad = apply_check(check, cfg, r2)
+            if bad:
+                key = bad.key if isinstance(bad, Finding) else 'c06:layers:%s:%s:%s' % (shape, cfg.key(), k)
+                ctx.property_failure(key, 'stylesheet expand(%r, %s, global_config=%r): %s' % (
+                    k, dict(cfg.to_json(), snippets=call), glob, bad),
+                    {'input': k, 'config': dict(cfg.to_json(), snippets=call), 'global_config': glob, 'check': ['layered'],
+                     'impl': repr(r2)[:300], 'why': str(bad)})
+    ctx.cov['global_config_layer_cases'] = {'configurations': ci, 'cases': len(cases)}
+    if cases:
+        cfg, k, check, glob, call, n, shape = cases[-1]
+        ctx.sample({'input': k, 'config': dict(cfg.to_json(), snippets=call), 'global_config': glob, 'impl': repr(results[-1])[:160]})
+    if not ok:
+        return
+    # the tie: the model has no global layers; it is given the table merged in the documented order as ITS user table
+    multi = sorted({c[5] for c in cases if '+' in c[6]})
+    step = max(1, len(multi) // N_LAYER_MODEL[ctx.tier])
+    picked = set(multi[::step][:N_LAYER_MODEL[ctx.tier]])          # configurations with >= 2 layers, spread over the syntaxes
+    chosen = [i for i, c in enumerate(cases) if c[5] in picked]
+    nconf = len(picked)
+    res = su.coq_expand(ctx, [(cases[i][0], cases[i][1]) for i in chosen], tag='c06-layers')
+    if res is None:
+        return
+    dis = 0
+    for i, m in zip(chosen, res):
+        if m != results[i]:
+            dis += 1
+            if dis <= 5:
+                cfg, k, check, glob, call, n, shape = cases[i]
+                ctx.say('DISAGREE css expand %r with global config %r, call snippets %r\n  impl  %r\n  model (merged table) %r' % (k, glob, call, results[i], m))
+                v = apply_check(check, cfg, results[i])
+                if not v or isinstance(v, Finding):
+                    ctx.broken.append({'kind': 'correspondence', 'file': 'css-expand-global-layers', 'input': k, 'config': cfg.to_json(),
+                                       'global_config': glob, 'impl': repr(results[i])[:300], 'model': repr(m)[:300]})
+    ctx.cov['correspondence']['css_expand_global_layers_model'] = {'cases': len(chosen), 'configurations': nconf, 'disagreements': dis}
+
+
 def value_verdict(cfg, k, src, kind, r):
     if r[0] != 'ok':
         return 'expand raised %r' % (r,)
@@ -650,6 +949,17 @@ def replay(ctx, obj):
         print('replay names a broken obligation, no input: %s' % rp)
         return 1
     cfg = Cfg.from_json(rp.get('config', {}))
+    if rp.get('check', [''])[0] == 'layered':
+        glob = rp.get('global_config', {})
+        layers = {'type': glob.get('stylesheet', {}).get('snippets', {}), 'syntax': glob.get(cfg.syntax, {}).get('snippets', {}),
+                  'call': cfg.snippets}
+        eff, merged = layered_effective(live_table(cfg.syntax), layers)
+        r = impl_layered(s, cfg, glob, cfg.snippets, None)
+        bad = apply_check(('key', eff, s), cfg, r)
+        known = isinstance(bad, Finding) and ctx.match_known(bad.key)
+        print('css expand(%r, %s, global_config=%r) -> %r : %s%s' % (s, cfg.to_json(), glob, r, bad or 'property holds',
+                                                                       ' (listed finding %s)' % bad.key if known else ''))
+        return 1 if bad and not known else 0
     if rp.get('check', [''])[0] == 'value':
         src = cfg.snippets.get(s, '')
         kind = classify(src)[0]
@@ -666,7 +976,11 @@ def replay(ctx, obj):
         check = ('key', t, key)
     else:
         check = tuple(chk)
-    r = su.impl_expand(s, cfg)
+    if 'shared_cache_first_scope' in rp:
+        r = shared_cache_run(s, cfg, rp['shared_cache_first_scope'])
+        print('one cache dict first used under scope %r, then:' % (rp['shared_cache_first_scope'],))
+    else:
+        r = su.impl_expand(s, cfg)
     bad = apply_check(check, cfg, r)
     known = isinstance(bad, Finding) and ctx.match_known(bad.key)
     print('css expand(%r) under %s -> %r : %s%s' % (s, cfg.to_json(), r, bad or 'property holds', ' (listed finding %s)' % bad.key if known else ''))
